@@ -141,7 +141,7 @@ theorem chain3Input_pos (kp : Nat → Bool) (seq : List Glyph) : ∀ (cs : List 
         · rename_i ps' last'
           injection h with h; injection h with h; injection h with h1 h2; subst h1 h2
           have hp' := idx_lt hg
-          have hq' := skipFwd_drop_le kp seq (p + 1) limit cs.length q (by omega) hq
+          have hq' := skipFwd_drop_le kp seq (p + 1) limit 0 q (by omega) hq
           obtain ⟨h1, h2⟩ := ih q limit ps' _ hq'.2 hr
           refine ⟨?_, h2⟩
           intro x hx
@@ -489,7 +489,7 @@ theorem chain3Input_safe (kp : Nat → Bool) (seq : List Glyph) : ∀ (cs : List
       intro g _ _
       split
       · trivial
-      · refine Safe.bind (skipFwd_drop_safe kp seq (p + 1) limit cs.length h) ?_
+      · refine Safe.bind (skipFwd_drop_safe kp seq (p + 1) limit 0 h) ?_
         intro q _ _
         refine Safe.bind (ih q limit h) ?_
         intro r _ _
@@ -592,7 +592,14 @@ theorem applySub_ctxWF (ll : LookupList) (kp : Nat → Bool) (st : St) (a : Nat)
       | some pn =>
         obtain ⟨ps, next⟩ := pn
         obtain ⟨h1, h2⟩ := hx ps next rfl
-        refine Safe.bind (chain3Input_safe kp st.seq look next _ (Int.le_refl _)) ?_
+        have hp0 : Safe (fun _ => True) (if look.isEmpty then (pure next : Outcome Nat)
+            else skipFwd kp (st.seq.drop next) next st.seq.length 0) := by
+          split
+          · trivial
+          · exact skipFwd_drop_safe kp st.seq next _ 0 (Int.le_refl _)
+        refine Safe.bind hp0 ?_
+        intro p0 _ _
+        refine Safe.bind (chain3Input_safe kp st.seq look p0 _ (Int.le_refl _)) ?_
         intro y _ _
         cases y with
         | none => trivial
